@@ -28,15 +28,53 @@ func (ex *Exec) checkBudget(pos token.Pos) {
 	}
 }
 
+// applyGhostUpdate executes one ghost assignment in the current state.
+func (ex *Exec) applyGhostUpdate(st *State, g *GhostUpdate, pos token.Pos) {
+	gv, ok := ex.cs.Ghost[g.Name]
+	if !ok {
+		ex.fail(pos, "ghost update: unknown ghost var %s", g.Name)
+		return
+	}
+	env := ex.envAt(st, pos)
+	v, err := env.Elab(g.Expr)
+	if err != nil {
+		ex.fail(pos, "ghost update %q: %v", g.Src, err)
+		return
+	}
+	gs, _ := ex.sortOfSType(gv.T, ex.pkg.Types)
+	if !sameSort(v.S, gs) {
+		ex.fail(pos, "ghost update %q: value has sort %s, ghost var %s has sort %s", g.Src, v.S, g.Name, gs)
+		return
+	}
+	st.ghost[g.Name] = ex.share(st, v).T
+}
+
 func (ex *Exec) stmt(st *State, s ast.Stmt, c *ctl, k func(*State)) {
 	if st.dead {
 		return
 	}
 	ex.checkBudget(s.Pos())
-	// ghost assertions / skips keyed on the printed statement
-	if ex.fc != nil && (len(ex.fc.Asserts) > 0 || len(ex.fc.Skip) > 0) {
+	// ghost assertions / ghost updates / skips keyed on the printed statement
+	if ex.fc != nil && (len(ex.fc.Asserts) > 0 || len(ex.fc.Skip) > 0 || len(ex.fc.GhostUpd) > 0) {
 		if _, isBlock := s.(*ast.BlockStmt); !isBlock {
 			text := normalizeStmtText(nodeString(ex.fset, s))
+			for i, g := range ex.fc.GhostUpd {
+				if !strings.HasPrefix(text, normalizeStmtText(g.Anchor)) {
+					continue
+				}
+				ex.ghostUpdHit[i] = true
+				if !g.After {
+					ex.applyGhostUpdate(st, g, s.Pos())
+					continue
+				}
+				g, kPrev, end := g, k, s.End()
+				k = func(st2 *State) {
+					if !st2.dead {
+						ex.applyGhostUpdate(st2, g, end)
+					}
+					kPrev(st2)
+				}
+			}
 			for i, a := range ex.fc.Asserts {
 				if strings.HasPrefix(text, normalizeStmtText(a.Before)) {
 					ex.assertHit[i] = true
@@ -340,7 +378,7 @@ func (ex *Exec) assignStmt(st *State, s *ast.AssignStmt, k func(*State)) {
 			if mt, ok := under(ex.typeOf(l.X)).(*types.Map); ok {
 				if id, isId := unparen(s.Rhs[0]).(*ast.Ident); isId {
 					if _, inner := under(mt.Elem()).(*types.Map); inner {
-						if obj, ok := ex.info.Uses[id].(*types.Var); ok {
+						if obj, ok := ex.info.Uses[id].(*types.Var); ok && pureLvalue(l.X) {
 							afterAssign = func(stA *State) {
 								ex.eval(stA, l.Index, func(stB *State, key Val) {
 									key = ex.convert(stB, key, mt.Key())
@@ -373,7 +411,76 @@ func (ex *Exec) linkInnerMap(st *State, lhs ast.Expr, base ast.Expr, key Val) {
 	if _, isMap := under(obj.Type()).(*types.Map); !isMap {
 		return
 	}
+	if !pureLvalue(base) {
+		st.setLink(obj, nil)
+		return
+	}
 	st.setLink(obj, &aliasLink{base: base, text: nodeString(ex.fset, base), key: key})
+}
+
+// pureLvalue: identifiers and field selections only (evaluating it has no effect and does not fork).
+func pureLvalue(e ast.Expr) bool {
+	switch x := unparen(e).(type) {
+	case *ast.Ident:
+		return true
+	case *ast.SelectorExpr:
+		return pureLvalue(x.X)
+	case *ast.StarExpr:
+		return pureLvalue(x.X)
+	}
+	return false
+}
+
+// writeBackLink stores the current value of the linked variable into the outer element it denotes.
+func (ex *Exec) writeBackLink(st *State, obj types.Object, lk *aliasLink) {
+	cur, ok := st.vars[obj]
+	if !ok {
+		return
+	}
+	if ex.boxed[obj] {
+		st.setLink(obj, nil)
+		return
+	}
+	ex.eval(st, lk.base, func(st2 *State, outer Val) {
+		no := ex.share(st2, mapStore(ex.share(st2, outer), lk.key.T, cur.T))
+		no.GoT = ex.typeOf(lk.base)
+		ex.assignToNoLink(st2, lk.base, no, func(st3 *State) {
+			st3.setLink(obj, lk)
+		})
+	})
+}
+
+// reassignsVar: does n contain a statement that may re-point the variable (assignment to the bare
+// identifier, range variable, address-of)?
+func (ex *Exec) reassignsVar(n ast.Node, obj types.Object) bool {
+	found := false
+	isObj := func(e ast.Expr) bool {
+		id, ok := unparen(e).(*ast.Ident)
+		if !ok {
+			return false
+		}
+		return ex.info.Uses[id] == obj || ex.info.Defs[id] == obj
+	}
+	ast.Inspect(n, func(m ast.Node) bool {
+		switch s := m.(type) {
+		case *ast.AssignStmt:
+			for _, l := range s.Lhs {
+				if isObj(l) {
+					found = true
+				}
+			}
+		case *ast.RangeStmt:
+			if (s.Key != nil && isObj(s.Key)) || (s.Value != nil && isObj(s.Value)) {
+				found = true
+			}
+		case *ast.UnaryExpr:
+			if s.Op == token.AND && isObj(s.X) {
+				found = true
+			}
+		}
+		return !found
+	})
+	return found
 }
 
 func (st *State) setLink(obj types.Object, l *aliasLink) {
@@ -670,6 +777,7 @@ func (ex *Exec) loopSpec(n ast.Node) (int, *LoopSpec) {
 func (ex *Exec) assertInvs(st *State, kind string, ord int, ls *LoopSpec, pos token.Pos, extra map[string]Val) {
 	for i, inv := range ls.Invariants {
 		env := ex.envAt(st, pos)
+		env.entryOrd = ord
 		for k, v := range extra {
 			env.names[k] = v
 		}
@@ -677,9 +785,10 @@ func (ex *Exec) assertInvs(st *State, kind string, ord int, ls *LoopSpec, pos to
 	}
 }
 
-func (ex *Exec) assumeInvs(st *State, ls *LoopSpec, pos token.Pos, extra map[string]Val) {
+func (ex *Exec) assumeInvs(st *State, ord int, ls *LoopSpec, pos token.Pos, extra map[string]Val) {
 	for _, inv := range ls.Invariants {
 		env := ex.envAt(st, pos)
+		env.entryOrd = ord
 		for k, v := range extra {
 			env.names[k] = v
 		}
@@ -700,6 +809,7 @@ func (ex *Exec) forStmt(st *State, s *ast.ForStmt, c *ctl, k func(*State)) {
 		bodyPos := s.Body.Lbrace
 		ex.assertInvs(st, "inv-entry", ord, ls, bodyPos, nil)
 		st2 := st.clone()
+		st2.setEntry(ord, st)
 		ex.havocAssigned(st2, s.Body)
 		if s.Post != nil {
 			ex.havocAssigned(st2, s.Post)
@@ -707,7 +817,7 @@ func (ex *Exec) forStmt(st *State, s *ast.ForStmt, c *ctl, k func(*State)) {
 		if s.Cond != nil && ex.hasCall(s.Cond) {
 			ex.havocAssigned(st2, &ast.ExprStmt{X: s.Cond})
 		}
-		ex.assumeInvs(st2, ls, bodyPos, nil)
+		ex.assumeInvs(st2, ord, ls, bodyPos, nil)
 		afterBody := func(st *State) {
 			post := func(st *State) {
 				ex.assertInvs(st, "inv-step", ord, ls, bodyPos, nil)
@@ -782,10 +892,11 @@ func (ex *Exec) rangeStmt(st *State, s *ast.RangeStmt, c *ctl, k func(*State)) {
 			zero := Val{T: "0", S: SInt, GoT: types.Typ[types.Int]}
 			ex.assertInvs(st1, "inv-entry", ord, ls, bodyPos, ex.rangeExtra(st1, keyObj, zero, s))
 			st2 := st1.clone()
+			st2.setEntry(ord, st1)
 			ex.havocAssigned(st2, s.Body)
 			i := ex.freshVal("i", types.Typ[types.Int])
 			st2.assume(and(app("<=", "0", i.T), app("<=", i.T, n)))
-			ex.assumeInvs(st2, ls, bodyPos, ex.rangeExtra(st2, keyObj, i, s))
+			ex.assumeInvs(st2, ord, ls, bodyPos, ex.rangeExtra(st2, keyObj, i, s))
 			// exit
 			stE := st2.clone()
 			stE.assume(eq(i.T, n))
@@ -825,11 +936,12 @@ func (ex *Exec) rangeStmt(st *State, s *ast.RangeStmt, c *ctl, k func(*State)) {
 			empty := Val{T: zeroOf(setSort), S: setSort}
 			ex.assertInvs(st1, "inv-entry", ord, ls, bodyPos, map[string]Val{"$visited": empty})
 			st2 := st1.clone()
+			st2.setEntry(ord, st1)
 			ex.havocAssigned(st2, s.Body)
 			visited := Val{T: ex.fresh("visited", setSort), S: setSort}
 			extra := map[string]Val{"$visited": visited}
 			readMap(st2, func(st3 *State, m Val) {
-				ex.assumeInvs(st3, ls, bodyPos, extra)
+				ex.assumeInvs(st3, ord, ls, bodyPos, extra)
 				stE := st3.clone()
 				qk := "q_k"
 				stE.assume("(forall ((" + qk + " " + ks.Name + ")) (=> (select (m-dom " + m.T + ") " + qk + ") (select " + visited.T + " " + qk + ")))")
